@@ -445,13 +445,20 @@ package martian
 //@ property C13 C04 C07 C15
 //@ ghostset nMITM() := old(nMITM()) + 1
 //@ requires p != nil && p.Proxy != nil && p.conn != nil && p.brw != nil && p.brw.Writer != nil && p.brw.Reader != nil && p.MITMConfig != nil && req != nil && req.Method == "CONNECT" && req.URL != nil && lockDepth() == 0
-//@ modifies *, nWrote(), wroteStatus(), sawClosing(), wrotePA(), wErr(), nMITM(), hsBudget
+//@ modifies *, nWrote(), wroteStatus(), sawClosing(), wrotePA(), wErr(), nMITM(), hsBudget, rdN(p.conn), rdAt, clk(), firstByteClk()
 //@ preserves Proxy.* http.Request.Method proxyConn.Proxy proxyConn.brw bufio.ReadWriter.*
 //@ ensures p.conn != nil
 // (C15: the handshake with the intercepted client runs under the MITM handshake timeout)
 //@ ensures p.MITMTLSHandshakeTimeout > 0 && p.conn != old(p.conn) ==> (p.conn is *tls.Conn) && hsBudget(p.conn.(*tls.Conn)) == p.MITMTLSHandshakeTimeout
 //@ ensures nWrote() == old(nWrote()) + 1 || (sawClosing() && nWrote() == old(nWrote()))
 //@ ensures upstream() == old(upstream())
+// (C15: waiting for the first byte of the intercepted session is an idle wait -
+// the idle deadline, computed from a clock reading taken before the wait, is
+// the first one armed; it is cleared again before the handshake and the
+// session's requests, which have their own limits)
+//@ ensures rdN(old(p.conn)) > old(rdN(p.conn)) && idleT(p.Proxy) > 0 ==> rdAt(old(p.conn), old(rdN(p.conn))) == tAddOf(tOf(old(clk())), idleT(p.Proxy)) && firstByteClk() > old(clk())
+//@ ensures rdN(old(p.conn)) > old(rdN(p.conn)) && idleT(p.Proxy) <= 0 ==> noDeadline(rdAt(old(p.conn), old(rdN(p.conn))))
+//@ ensures result == nil && wroteStatus() == 200 && nWrote() == old(nWrote()) + 1 ==> rdN(old(p.conn)) >= old(rdN(p.conn)) + 2 && noDeadline(rdAt(old(p.conn), rdN(old(p.conn)) - 1))
 
 // handleConnectRequest: a refused CONNECT contacts nobody and is reported once;
 // an accepted one is reported once as well (by the tunnel, the MITM hand-off
